@@ -1,5 +1,6 @@
 import Ekit.Props.C02
 import Ekit.Props.C02Rev
+import Ekit.Props.C02Ptr
 open Ekit.RB
 #print axioms c02_empty_inv
 #print axioms c02_insert_inv
@@ -32,3 +33,17 @@ open Ekit.RB
 #print axioms c02_delCount
 #print axioms c02_counts_le_reachable
 #print axioms c02_height_pow
+-- pointer level (Ekit/Props/C02Ptr.lean): the MiniGo interpreter running the translated internal/tree/red_black_tree.go
+#print axioms Ekit.MiniGo.RBHeap.c02_ptr_new_wf
+#print axioms Ekit.MiniGo.RBHeap.c02_ptr_step_wf
+#print axioms Ekit.MiniGo.RBHeap.c02_ptr_reachable_wf
+#print axioms Ekit.MiniGo.RBHeap.c02_ptr_history_wf
+#print axioms Ekit.MiniGo.RBHeap.c02_ptr_parent_links
+#print axioms Ekit.MiniGo.RBHeap.c02_ptr_history_parent_links
+#print axioms Ekit.MiniGo.RBHeap.c02_ptr_wfB_sound
+#print axioms Ekit.MiniGo.RBHeap.k_procs_safe
+#print axioms Ekit.MiniGo.RBHeap.call_specK
+#print axioms Ekit.MiniGo.RBHeap.Rot.rotateLeft_spec
+#print axioms Ekit.MiniGo.RBHeap.Rot.rotateRight_spec
+#print axioms Ekit.MiniGo.RBHeap.AddN.addNode_spec
+#print axioms Ekit.MiniGo.RBHeap.Del.deleteNode_spec
